@@ -8,6 +8,7 @@
   reflection coefficients `ks` (first first).
 -/
 import ALV.Lemmas.C11Order2
+import ALV.Lemmas.C11Lev
 import ALV.Common.Audit
 
 set_option linter.unusedSectionVars false
@@ -197,7 +198,41 @@ def SchurCohnFull : Prop :=
   ∀ (den t : List ℝ) (g : ℝ), g ≠ 0 → stripZeros den = g :: t →
     (parcorStableSpec den = true ↔ ∀ z : ℂ, evalC den.reverse z = 0 → Complex.normSq z < 1)
 
+/-! ### 6. `levinson_durbin` as coded: reflection coefficients and prediction error -/
+
+/-- **C11.6a** whenever `levinson_durbin(r, order)` returns (no `ParCorError`), with `ks` the
+coefficients `k_m = −⟨A, z^-m⟩/⟨B, B⟩` of its loop: the filter is the step-up of `ks`, there are
+`order` of them, and `A.error = r₀ · Π (1 − k_m²)` — any field, any order, any `r` (also shorter
+than the order: zero extension). -/
+theorem levinson_error (r : List K) (order : Nat) (a ks : List K) (e : K)
+    (h : levinson r order = some (a, e, ks)) :
+    a = stepUp ks ∧ ks.length = order ∧ e = r.headD 0 * (ks.map (fun k => 1 - k * k)).prod := by
+  unfold levinson at h
+  simp only [] at h
+  cases hl : levLoop (extendAc r order) order ⟨[1], []⟩ with
+  | none => rw [hl] at h; simp at h
+  | some s =>
+    rw [hl] at h
+    simp only [Option.some.injEq, Prod.mk.injEq] at h
+    obtain ⟨ha, he, hk⟩ := h
+    have inv := levLoop_inv _ _ order _ s (linv_init (extendAc r order)) hl
+    have hc := levLoop_count _ order _ s hl
+    refine ⟨by rw [← ha, ← hk]; exact inv.up, by rw [← hk, hc]; simp, ?_⟩
+    rw [← he, inner_self _ _ s inv, cf_extendAc_zero, errorSpec_eq_prod, hk]
+
+/-- **C11.6b** `parcor(levinson_durbin(r))` yields, last first, exactly the reflection coefficients
+of the recursion (no `k_m² = 1`, last one non-zero). -/
+theorem parcor_levinson (r : List K) (order : Nat) (a ks : List K) (e : K)
+    (h : levinson r order = some (a, e, ks)) (h1 : ∀ k ∈ ks, k * k ≠ 1) (hlast : ks.getLastD 1 ≠ 0) :
+    parcorCoded 1 a = (ks.reverse, false) := by
+  rw [(levinson_error r order a ks e h).1]
+  exact stepdown_stepup ks h1 hlast
+
 /-! ### non-vacuity -/
+example : levinson ([12, 6, 0, -3] : List Rat) 3 = some ([1, -5/8, 1/4, 1/8], 63/8, [-1/2, 1/3, 1/8]) := by
+  decide +kernel
+example : (12 : Rat) * (([-1/2, 1/3, 1/8] : List Rat).map (fun k => 1 - k * k)).prod = 63/8 := by
+  decide +kernel
 example : parcorStableSpec ([2, -1] : List ℝ) = true :=
   (schur_cohn_order1_partial 2 (-1) (by norm_num) (by norm_num)).mpr (by
     intro z hz
